@@ -50,6 +50,7 @@ type BedOpts struct {
 	Redis            string // address of a redis server for the second-level cache ("" = none)
 	Limiter          string // yaml block under "limiter:" ("" = none)
 	TcpMaxConc       int
+	IdleTimeout      int // idle_timeout of the stream listeners in seconds (0 = default)
 	ClientAddrHeader string
 	Env              map[string]string
 	LogLevel         string
@@ -275,6 +276,9 @@ func newBedOnce(c *Ctx, name string, o BedOpts) (*Bed, error) {
 		}
 		if kind == "udp" && o.UdpRcvBuf > 0 {
 			fmt.Fprintf(&y, "    socket:\n      so_rcvbuf: %d\n", o.UdpRcvBuf)
+		}
+		if (kind == "tcp" || kind == "gnet" || kind == "tls") && o.IdleTimeout > 0 {
+			fmt.Fprintf(&y, "    idle_timeout: %d\n", o.IdleTimeout)
 		}
 		if (kind == "tcp" || kind == "gnet" || kind == "tls") && o.TcpMaxConc > 0 {
 			fmt.Fprintf(&y, "    tcp:\n      max_concurrent_queries: %d\n", o.TcpMaxConc)
